@@ -25,6 +25,14 @@ def exec_block(ip, stmts, st):
     outs = []
     states = [st]
     for s in stmts:
+        if st.depth == 0 and ip.c is not None and ip.c.ghost.get("opaque_regions") and not ip.spec_mode:
+            from .vmembers import opaque_region_at
+            reg_ = opaque_region_at(ip, stmts, s)
+            if reg_ is not None:
+                from .vmembers import run_opaque_region
+                for x in states:
+                    outs += run_opaque_region(ip, reg_, stmts[stmts.index(s):], x)
+                return outs
         nxt = []
         for x in states:
             for kind, s2, payload in exec_stmt(ip, s, x):
@@ -90,6 +98,25 @@ def st_FunctionDef(ip, s, st):
     f = Fun("def", node=s, env=st.env)     # late binding: the closure sees the live environment dict snapshot
     f.env = dict(st.env)
     st.env[s.name] = f
+    return [("next", st, None)]
+
+
+def st_ClassDef(ip, s, st):
+    """a class statement inside a function: executing it only binds the name when the class has no bases, keywords or
+    decorators and its body consists of method definitions (and a docstring) -- nothing runs, nothing else changes.
+    The class itself is opaque: instantiating it or reading its attributes is out-of-subset (call_value / getattr_
+    refuse a Fun of kind `localclass`)."""
+    if s.bases or s.keywords or s.decorator_list:
+        raise U("local class statement with bases / keywords / decorators")
+    for b in s.body:
+        if isinstance(b, ast.FunctionDef) and not b.decorator_list:
+            continue
+        if isinstance(b, ast.Expr) and isinstance(b.value, ast.Constant):
+            continue
+        if isinstance(b, ast.Pass):
+            continue
+        raise U("local class statement whose body is not only method definitions")
+    st.env[s.name] = Fun("localclass", node=s)
     return [("next", st, None)]
 
 
@@ -164,6 +191,23 @@ def abandon_here(ip, st):
 
 def st_Assign(ip, s, st):
     outs = []
+    if (ip.c is not None and len(s.targets) == 1 and isinstance(s.targets[0], ast.Name) and st.depth == 0
+            and s.targets[0].id not in ip.c.abstract and any(k.startswith(s.targets[0].id + "@") for k in ip.c.abstract)):
+        # Contract.abstract key "name@k": only the k-th plain assignment `name = ...` of the function (source order)
+        name = s.targets[0].id
+        sites = sorted((n for n in ast.walk(ip.cur_fn) if isinstance(n, ast.Assign) and len(n.targets) == 1
+                        and isinstance(n.targets[0], ast.Name) and n.targets[0].id == name),
+                       key=lambda n: (n.lineno, n.col_offset))
+        key = "%s@%d" % (name, [id(n) for n in sites].index(id(s))) if any(n is s for n in sites) else None
+        if key in ip.c.abstract:
+            ty, constraint = ip.c.abstract[key]
+            v = ip.make(ty, name, st)
+            st.env[name] = v
+            from .calls import eval_spec
+            st.assume(eval_spec(ip, st, st.env, constraint))
+            ip.assumptions.add("abstract clause: assignment #%s to local `%s` of %s havocked under: %s"
+                               % (key.split("@")[1], name, ip.c.name, constraint))
+            return [("next", st, None)]
     if (ip.c is not None and len(s.targets) == 1 and isinstance(s.targets[0], ast.Name)
             and s.targets[0].id in ip.c.abstract and st.depth == 0):
         name = s.targets[0].id
@@ -201,6 +245,18 @@ def assign_to(ip, target, v, st):
     if isinstance(target, ast.Name):
         st.env[target.id] = v
         return [st]
+    if isinstance(target, (ast.Tuple, ast.List)) and isinstance(v, Opaque) and v.sort == "V" \
+            and ip.c is not None and ip.c.ghost.get("v_unpack") and not any(isinstance(t, ast.Starred) for t in target.elts):
+        # Contract(ghost={"v_unpack": True}): an abstract flow value unpacked into n names is a sequence of n items, each
+        # a function of the value (the ValueError / TypeError of a value of another shape is not modelled: assumption)
+        n = len(target.elts)
+        ip.assumptions.add("flow values: a value unpacked into %d names is a sequence of %d items (declared v_unpack)" % (n, n))
+        states = [st]
+        for k, t in enumerate(target.elts):
+            f = ip.reg.ufun("v_unpack_%d_%d" % (n, k), ["V"], "V")
+            x = Opaque(T("(%s %s)" % (f, v.t.s), "V"))
+            states = [s3 for s2 in states for s3 in assign_to(ip, t, x, s2)]
+        return states
     if isinstance(target, (ast.Tuple, ast.List)):
         view = ip.as_view(st, v)
         if view.items is None:
@@ -311,7 +367,51 @@ def st_Return(ip, s, st):
         return [("return", st, NONE)]
     if isinstance(s.value, ast.GeneratorExp) and ip.c is not None and ip.c.generator and st.depth == 0:
         return genexp_as_generator(ip, s, st)
+    if ip.c is not None and ip.c.generator and st.depth == 0 and not has_own_yield(ip.cur_fn):
+        return returned_iterator_as_generator(ip, s, st)
     return [("return", s2, v) for s2, v in ip.ev(s.value, st)]
+
+
+def has_own_yield(fn):
+    """is the function syntactically a generator (a yield of its own, not one of a nested def / lambda)?"""
+    todo = list(fn.body)
+    while todo:
+        n = todo.pop()
+        if isinstance(n, (ast.Yield, ast.YieldFrom)):
+            return True
+        if isinstance(n, (ast.FunctionDef, ast.Lambda, ast.ClassDef)):
+            continue
+        todo += list(ast.iter_child_nodes(n))
+    return False
+
+
+def returned_iterator_as_generator(ip, s, st):
+    """`def f(..): return <expr>` (no yield in f) under a generator=True contract, <expr> evaluating to an iterator object
+    (itertools.islice ...): the caller receives that very iterator.  A generator delegating to it (`for x in it: yield x`)
+    delivers the same values with the same pulls from the inputs at each step, PROVIDED creating the iterator pulls
+    nothing (checked: no iterator of the state is advanced by evaluating <expr>).  The delegation loop gets the ordinal
+    after the function's own loops; its `_i` is the number of values delivered."""
+    before = {cid: c.cursor.s for cid, c in st.heap.items() if isinstance(c, IterCell) and getattr(c, "kind", None) is None}
+    cache = ip.__dict__.setdefault("_genexp_loops", {})
+    loop = cache.get(id(s))
+    if loop is None:
+        loop = ast.For(target=ast.Name(id="$item", ctx=ast.Store()), iter=ast.Name(id="$ret", ctx=ast.Load()),
+                       body=[ast.Expr(value=ast.Yield(value=ast.Name(id="$item", ctx=ast.Load())))], orelse=[])
+        ast.copy_location(loop, s)
+        ast.fix_missing_locations(loop)
+        cache[id(s)] = loop
+        ip.loop_ids[id(loop)] = len(ip.loop_ids)
+    outs = []
+    for s2, v in ip.ev(s.value, st):
+        if not (isinstance(v, Ref) and isinstance(s2.heap.get(v.cid), IterCell)):
+            raise U("generator=True contract of a function that returns %r" % (v,))
+        for cid, cur in before.items():
+            if s2.heap[cid].cursor.s != cur:
+                raise U("the returned iterator is created by pulling from an iterator")
+        s2.env["$ret"] = v
+        for kind, s3, payload in exec_stmt(ip, loop, s2):
+            outs.append(("return", s3, NONE) if kind == "next" else (kind, s3, payload))
+    return outs
 
 
 def genexp_as_generator(ip, s, st):
@@ -581,6 +681,9 @@ def iter_next(ip, st, it, default=None):
     outs = []
     if has.s != "true":
         ex = st.fork(NOT(has), "E.") if has.s != "false" else st
+        if getattr(cell, "consumes", None):
+            from .lib_run import consume_exact        # output of an abstract run consumed to the end
+            consume_exact(ip, ex, it)
         if default is not None:
             outs.append((ex, default))
         elif ip.may_catch(ex, "StopIteration"):
@@ -592,11 +695,14 @@ def iter_next(ip, st, it, default=None):
     ok = st.fork(has, "V.") if has.s != "true" else st
     val = src.get(cell.cursor)
     nc = IterCell(cell.src, ADD(cell.cursor, I(1)), cell.name, cell.limit)
-    for a in ("live", "upstream", "shared"):
+    for a in ("live", "upstream", "shared", "consumes"):
         if hasattr(cell, a):
             setattr(nc, a, getattr(cell, a))
     ok.heap[it.cid] = nc
     sync_shared(ip, ok, nc)
+    if getattr(nc, "consumes", None):
+        from .lib_run import consume_some
+        consume_some(ip, ok, it)
     outs.append((ok, val))
     return outs
 
@@ -624,6 +730,7 @@ def loop_ordinal(ip, node):
 def mutated_roots(ip, body_nodes):
     """syntactic over-approximation of what a loop body changes: (names, root expressions)"""
     names, roots, yields, elem_state = set(), [], False, False
+    deep = ip._dobj_deep_nodes = set()      # roots changed BELOW the object itself (`x[a][b] = ..`, `x[a].append(..)`): pyvc/dictobj.py
 
     def root_of(e):
         while isinstance(e, ast.Subscript):
@@ -653,12 +760,16 @@ def mutated_roots(ip, body_nodes):
                         roots.append(("field", t.value, t.attr))
                     elif isinstance(t, ast.Subscript):
                         roots.append(("content", root_of(t), "del" if isinstance(n, ast.Delete) else None))
+                        if isinstance(t.value, ast.Subscript):
+                            deep.add(id(root_of(t)))
             elif isinstance(n, ast.ExceptHandler) and n.name:
                 names.add(n.name)
             elif isinstance(n, ast.Call):
                 f = n.func
                 if isinstance(f, ast.Attribute) and f.attr in MUTATORS_:
                     roots.append(("content", root_of(f.value), f.attr))
+                    if isinstance(f.value, ast.Subscript):
+                        deep.add(id(root_of(f.value)))
                 if isinstance(f, ast.Attribute) and f.attr in ("fill", "reset", "request", "fill_into"):
                     elem_state = True
                 if isinstance(f, ast.Name) and f.id in ("next", "list", "tuple", "zip", "islice", "deque") and n.args:
@@ -780,6 +891,9 @@ def prov_fixpoint(ip, st, k, run):
     return outs
 
 
+ELEMENT_METHODS = ("run", "fill", "compute", "request", "reset", "__call__", "fill_into", "_set_context", "_get_context")
+
+
 def havoc_loop(ip, node, h, spec, body_nodes):
     from .calls import havoc_value
     h.notes["dc_head_%s" % loop_ordinal(ip, node)] = frozenset(h.notes.get("deep_copies", ()))
@@ -791,6 +905,8 @@ def havoc_loop(ip, node, h, spec, body_nodes):
     for kind, e, attr in roots:
         if kind == "call":
             pending += call_frame(ip, e, h)
+            if not elem_state and calls_element_state(ip, e, h):
+                elem_state = True
             continue
         try:
             ip.spec_mode += 1
@@ -808,6 +924,8 @@ def havoc_loop(ip, node, h, spec, body_nodes):
             if isinstance(v, Ref) and isinstance(h.heap[v.cid], IterCell):
                 pending.append(("content", v, None))
     done = set()
+    from . import dictobj
+    deep_cids = dictobj.deep_cells(ip, h, pending, getattr(ip, "_dobj_deep_nodes", ()))
     # a list of CONCRETE length (a display such as `xs = []`) whose length the body may change: its shape at the loop
     # head is not the shape before the loop.  It must be given a symbolic-length type (LoopSpec.ghost = {"xs": "Lst[T]"}).
     grows = {}
@@ -850,7 +968,7 @@ def havoc_loop(ip, node, h, spec, body_nodes):
                 cell = h.heap[v.cid]
                 if isinstance(cell, ObjCell):
                     continue
-                havoc_value(ip, h, v, "lh")
+                havoc_value(ip, h, v, "lh", deep=(v.cid in deep_cids))
     for n in sorted(names):
         if n in keep:
             continue
@@ -867,7 +985,9 @@ def havoc_loop(ip, node, h, spec, body_nodes):
                     # WHICH object the name refers to at the loop head is unknown (it may alias anything): reading it
                     # yields unknown content, writing through it is rejected (Interp.store)
                     h.notes["unknown_alias"] = set(h.notes.get("unknown_alias", ())) | {h.env[n].cid}
-                elif isinstance(cell, ValCell):
+                elif isinstance(cell, ValCell) or (isinstance(cell, PyDictCell) and spec.ghost.get(n) == "Dict"):
+                    # (a dictionary display before the loop -- `{}` -- that the loop re-binds to dictionary objects: declared
+                    # in LoopSpec.ghost as "Dict"; at the head it is some dictionary object like any other)
                     h.env[n] = ip.new_cell(h, ValCell(ip.reg.new(n, "Val")))
                     h.notes["unknown_alias"] = set(h.notes.get("unknown_alias", ())) | {h.env[n].cid}
                 elif isinstance(cell, IterCell):
@@ -902,6 +1022,13 @@ def havoc_loop(ip, node, h, spec, body_nodes):
                 raise U("havoc of local %s = %r" % (n, cur))
         elif n in spec.ghost:
             h.env[n] = ip.make(spec.ghost[n], n, h)
+    if ip.c is not None and ip.c.ghost.get("call_count"):
+        # ghost call counters (spec form call_count): earlier iterations made an unknown number of calls of every method
+        for m in ELEMENT_METHODS:
+            c0 = h.notes.get("cc_" + m, I(0))
+            c1 = ip.reg.new("cc_" + m, "Int")
+            h.assume(CMP(">=", c1, c0))
+            h.notes["cc_" + m] = c1
     if yields:
         # ghost yield counter: earlier iterations yielded an unknown number of values
         yc0 = h.notes.get("yc", I(0))
@@ -929,6 +1056,35 @@ def havoc_loop(ip, node, h, spec, body_nodes):
             h.heap[base.cid] = ObjCell(cell.cls, f)
         else:
             havoc_value(ip, h, base, "hx")
+    dictobj.loop_head(ip, h)
+    if ip.c is not None and ip.c.ghost.get("alias_store"):
+        # (see Interp.store) every object that exists now may be the one a re-bound name refers to
+        ep = dict(h.notes.get("alias_epoch", {}))
+        for cid in h.notes.get("unknown_alias", ()):
+            if cid not in ep and isinstance(h.heap.get(cid), ValCell):
+                ep[cid] = getattr(ip, "n_cells", 0)
+        h.notes["alias_epoch"] = ep
+
+
+def calls_element_state(ip, call, h):
+    """does this call of a loop body change the ghost state of an abstract element, whatever the callee is called: a bound
+    method of an element stored in a field or a local (self._el_fill = el.fill; self._el_fill(v)), or a function under
+    contract whose contract speaks about element states?  (calls spelled .fill / .reset / .request / .fill_into are
+    recognised syntactically by mutated_roots)"""
+    try:
+        ip.spec_mode += 1
+        try:
+            fv = ip.ev1(call.func, h)
+        finally:
+            ip.spec_mode -= 1
+    except Exception:
+        return False
+    if isinstance(fv, Fun) and fv.kind == "elem-method":
+        return getattr(fv, "name", None) not in ("compute", "run", "__call__")
+    if isinstance(fv, Fun) and fv.kind in ("contract", "bound"):
+        c = fv.contract
+        return any(k.ghost.get("elstate") for k in ([c] + list(c.cases or [])))
+    return False
 
 
 def call_frame(ip, call, h):
@@ -980,6 +1136,9 @@ def call_frame(ip, call, h):
 def check_invariants(ip, k, spec, st, kind):
     from .calls import eval_spec
     env = ip.spec_env(st)
+    if "dobj_iterated_%s" % k in st.notes:
+        from . import dictobj
+        dictobj.check_iterated(ip, k, st)
     if kind == "preserve":
         # ownership provenance across the loop cut: a deep copy (made before the loop) into which this iteration stored
         # a possibly shared object is no deep copy at the loop head either (see prov_fixpoint)
@@ -992,7 +1151,7 @@ def check_invariants(ip, k, spec, st, kind):
                 tab[k] = set(tab.get(k, ())) | lost
                 ip._prov_lost = tab
     for j, inv in enumerate(spec.invariant):
-        ip.emit("inv-" + kind, "loop#%d.%s#%d" % (k, kind, j), st, eval_spec(ip, st, env, inv, old=ip.entry))
+        ip.emit("inv-" + kind, "loop#%s.%s#%d" % (k, kind, j), st, eval_spec(ip, st, env, inv, old=ip.entry))
     if getattr(spec, "cursor", None):
         from .dicts import check_cursors
         check_cursors(ip, k, spec, st, kind)
@@ -1000,6 +1159,9 @@ def check_invariants(ip, k, spec, st, kind):
 
 def assume_invariants(ip, spec, st):
     from .calls import eval_spec
+    for nk in [n for n in st.notes if isinstance(n, str) and n.startswith("dobj_iterated_")]:
+        from . import dictobj
+        dictobj.check_iterated(ip, nk[len("dobj_iterated_"):], st)
     if getattr(spec, "cursor", None):
         from .dicts import set_cursors
         set_cursors(ip, spec, st)
@@ -1035,7 +1197,7 @@ def end_of_body(ip, k, spec, st, m0):
             ip.emit("iter-end", "loop#%s.iteration-end#%d" % (k, j), st, eval_spec(ip, st, env, cl, old=ip.entry), {"clause": cl})
     if m0 is not None:
         m1 = measure(ip, spec, st)
-        ip.emit("decreases", "loop#%d.decreases" % k, st, AND(CMP("<", m1, m0), CMP(">=", m0, I(0) if m0.sort == "Int" else R(0))))
+        ip.emit("decreases", "loop#%s.decreases" % k, st, AND(CMP("<", m1, m0), CMP(">=", m0, I(0) if m0.sort == "Int" else R(0))))
 
 
 def st_While(ip, s, st):
@@ -1048,27 +1210,30 @@ def st_While_(ip, s, st):
     k = loop_ordinal(ip, s)
     spec = ip.loop_spec(k)
     if spec is None:
-        raise U("loop #%d (while) needs an invariant in the contract" % k)
+        raise U("loop #%s (while) needs an invariant in the contract" % k)
     ghost_init(ip, spec, st)
     check_invariants(ip, k, spec, st, "init")
-    h = st.fork(None, "L%d:" % k)
+    h = st.fork(None, "L%s:" % k)
     havoc_loop(ip, s, h, spec, s.body + [ast.Expr(value=s.test)])
     set_loop_ghost(ip, h, k, None)
     assume_invariants(ip, spec, h)
     h.notes["epoch_%s" % k] = getattr(ip, "n_cells", 0)
     m0 = measure(ip, spec, h)
     if m0 is None and not ip.c.trusted:
-        ip.assumptions.add("termination of loop #%d of %s not proved (no decreases clause)" % (k, ip.c.name))
+        ip.assumptions.add("termination of loop #%s of %s not proved (no decreases clause)" % (k, ip.c.name))
     outs = []
     for s2, v in ip.ev(s.test, h):
         c = ip.truth(s2, v)
         if c.s != "false":
-            b = s2.fork(c, "") if c.s != "true" else s2
+            b = s2.fork(c, "")
+            from . import dictobj
+            dictobj.enter_body(ip, b)
             ghost_body(ip, spec, b)
             for kind, s3, payload in exec_block(ip, s.body, b):
                 if kind in ("next", "continue"):
                     end_of_body(ip, k, spec, s3, m0)
                 elif kind == "break":
+                    dictobj.leave_body(ip, s3)
                     s3.trace += "B."
                     outs.append(("next", s3, None))
                 else:
@@ -1132,36 +1297,61 @@ def for_over(ip, s, st, itv):
             st.heap[itv.cid] = IterCell(cell.src, I(len(cell.src.items)), cell.name, cell.limit)
             return unroll(ip, s, st, items)
         if spec is None:
-            raise U("loop #%d (for over an iterator) needs an invariant" % k)
+            raise U("loop #%s (for over an iterator) needs an invariant" % k)
         return for_iterator(ip, s, st, itv, k, spec)
     # ---- live python list (may be mutated by the body): index semantics
     if isinstance(itv, Ref) and isinstance(st.heap[itv.cid], LstCell):
         if spec is None:
-            raise U("loop #%d (for over a list of symbolic length) needs an invariant" % k)
+            raise U("loop #%s (for over a list of symbolic length) needs an invariant" % k)
         c = IterCell(None, I(0))
         c.live = itv
         it = ip.new_cell(st, c)
         return for_iterator(ip, s, st, it, k, spec, is_list=True)
+    if ip.c is not None and ip.c.ghost.get("dict_objects") and (
+            (isinstance(itv, Ref) and isinstance(st.heap[itv.cid], ValCell)) or (isinstance(itv, Opaque) and itv.sort == "Val")):
+        # a context value that may be a list of strings (pyvc/dictobj.py): iterate the list (a snapshot of its items: the
+        # body must not change the list, checked below) or, on the other path, the dictionary
+        from . import dictobj
+        from .dicts import dterm, for_dict
+        vt = dterm(ip, st, itv)
+        isl = dictobj.is_klist(ip, st, vt)
+        outs = []
+        if isl.s != "false":
+            a = st.fork(isl, "lst.") if isl.s != "true" else st
+            if spec is None:
+                raise U("loop #%s (for over a list stored in a context) needs an invariant" % k)
+            it = ip.new_cell(a, IterCell(dictobj.klist_view(ip, a, vt), I(0)))
+            a.notes["dobj_iterated_%s" % k] = (itv, vt.s)
+            outs += for_iterator(ip, s, a, it, k, spec, is_list=True)
+        if isl.s != "true":
+            if spec is None:
+                raise U("loop #%s (for over a dict) needs an invariant" % k)
+            b = st.fork(NOT(isl), "dct.")
+            # (the invariants of a loop over a list may name the iteration counter: on the dictionary path it is an
+            # arbitrary integer, the same at every cut)
+            b.env["_i"] = b.env["_i%s" % k] = Num(ip.reg.new("_i_dict", "Int"))
+            outs += for_dict(ip, s, b, itv, k, spec)
+        return outs
     if isinstance(itv, Ref) and isinstance(st.heap[itv.cid], ValCell) or (isinstance(itv, Opaque) and itv.sort == "Val"):
         from .dicts import for_dict
         if spec is None:
-            raise U("loop #%d (for over a dict) needs an invariant" % k)
+            raise U("loop #%s (for over a dict) needs an invariant" % k)
         return for_dict(ip, s, st, itv, k, spec)
     if isinstance(itv, Fun) and itv.kind == "mapview":
         from .keymap import for_keymap
         if spec is None:
-            raise U("loop #%d (for over a dict of lists) needs an invariant" % k)
+            raise U("loop #%s (for over a dict of lists) needs an invariant" % k)
         return for_keymap(ip, s, st, itv, k, spec)
     if isinstance(itv, Fun) and itv.kind == "dictview":
         from .dicts import for_dict
         if spec is None:
-            raise U("loop #%d (for over dict items) needs an invariant" % k)
+            raise U("loop #%s (for over dict items) needs an invariant" % k)
         return for_dict(ip, s, st, itv.recv, k, spec, mode=itv.name)
     view = ip.as_view(st, itv)
     if view.items is not None:
         return unroll(ip, s, st, view.items)
     if spec is None:
-        raise U("loop #%d (for over a sequence of symbolic length) needs an invariant" % k)
+        raise U("loop #%s (for over a sequence of symbolic length) needs an invariant" % k)
     it = ip.new_cell(st, IterCell(view, I(0)))
     return for_iterator(ip, s, st, it, k, spec, is_list=True)
 
@@ -1188,10 +1378,10 @@ def unroll(ip, s, st, items):
 def for_iterator(ip, s, st, it, k, spec, is_list=False):
     """for <target> in <iterator>: cut at the invariant; ghost `_i` = number of completed iterations"""
     set_loop_ghost(ip, st, k, I(0))
-    st.notes["loop_it_%d" % k] = it
+    st.notes["loop_it_%s" % k] = it
     ghost_init(ip, spec, st)
     check_invariants(ip, k, spec, st, "init")
-    h = st.fork(None, "L%d:" % k)
+    h = st.fork(None, "L%s:" % k)
     i_t = ip.reg.new("_i%d" % k, "Int")
     start_cell = h.heap[it.cid]
     havoc_loop(ip, s, h, spec, s.body)
@@ -1199,11 +1389,17 @@ def for_iterator(ip, s, st, it, k, spec, is_list=False):
     cell = h.heap[it.cid]
     if getattr(cell, "kind", None) is None:
         nc = IterCell(cell.src, ADD(start_cell.cursor, i_t), cell.name, cell.limit)
-        for a in ("live", "upstream", "shared"):
+        for a in ("live", "upstream", "shared", "consumes"):
             if hasattr(start_cell, a):
                 setattr(nc, a, getattr(start_cell, a))
         h.heap[it.cid] = nc
         sync_shared(ip, h, nc)
+        if getattr(nc, "consumes", None):
+            from .lib_run import consume_some        # earlier iterations: the abstract run pulled some of its input
+            consume_some(ip, h, it)
+    else:
+        from .lib_flow import loop_head_special          # itertools.count / islice: their state after i deliveries
+        loop_head_special(ip, h, it, start_cell, i_t)
     h.assume(CMP(">=", i_t, I(0)))
     hc = h.heap[it.cid]
     if getattr(hc, "kind", None) is None and getattr(hc, "live", None) is None and hc.src is not None:
@@ -1222,7 +1418,7 @@ def for_iterator(ip, s, st, it, k, spec, is_list=False):
     m0 = measure(ip, spec, h)
     live = getattr(h.heap[it.cid], "live", None)
     if live is not None and m0 is None:
-        ip.assumptions.add("termination of loop #%d of %s over a list it may extend is not proved" % (k, ip.c.name))
+        ip.assumptions.add("termination of loop #%s of %s over a list it may extend is not proved" % (k, ip.c.name))
     outs = []
     n_exc = len(ip._exc_out)
     saved_catch = h.catching
@@ -1241,6 +1437,14 @@ def for_iterator(ip, s, st, it, k, spec, is_list=False):
         if exc.cls == "StopIteration":
             sx.trace += "X."
             sx.notes["inloop_%s" % k] = False
+            for gname, gexpr in getattr(spec, "exit_ghost", {}).items():
+                # LoopSpec.exit_ghost: ghost names bound when the loop ends normally (exhausted iterator)
+                from .calls import spec_state
+                ip.spec_mode += 1
+                try:
+                    sx.env[gname] = ip.ev1(ip.contracts_parse(gexpr), spec_state(sx, ip.spec_env(sx)))
+                finally:
+                    ip.spec_mode -= 1
             outs.append(("next", sx, None))
         else:
             ip._exc_out.append((sx, exc))
@@ -1248,6 +1452,8 @@ def for_iterator(ip, s, st, it, k, spec, is_list=False):
         s2.catching = saved_catch
         s2.notes["epoch_%s" % k] = getattr(ip, "n_cells", 0)
         s2.notes["inloop_%s" % k] = True
+        from . import dictobj
+        dictobj.enter_body(ip, s2)
         for s3 in assign_to(ip, s.target, val, s2):
             ghost_body(ip, spec, s3)
             for kind, s4, payload in exec_block(ip, s.body, s3):
@@ -1255,6 +1461,7 @@ def for_iterator(ip, s, st, it, k, spec, is_list=False):
                     set_loop_ghost(ip, s4, k, ADD(i_t, I(1)))
                     end_of_body(ip, k, spec, s4, m0)
                 elif kind == "break":
+                    dictobj.leave_body(ip, s4)
                     s4.trace += "B."
                     s4.notes["inloop_%s" % k] = False
                     outs.append(("next", s4, None))
